@@ -57,6 +57,14 @@ def spellings(c, v, r, k):
                 out.append((f"{text!r} / {fmt!r}", o))
         except Exception:  # noqa: BLE001
             pass
+    if c == "naming" and all(w.isalpha() for w in v):
+        # objects read from a directive that does not keep the word boundaries are objects like any other: whatever their
+        # value is, they compare and hash as that value does
+        for text, fmt in (("".join(v), "%f"), ("".join(v).upper(), "%F")):
+            try:
+                out.append((f"{text!r} / {fmt!r}", cls.parse(text, fmt)))
+            except Exception:  # noqa: BLE001
+                pass
     return out
 
 
@@ -171,6 +179,29 @@ def sweep_groups(sw, r, tier):
         combos = list(itertools.product(*[range(len(g)) for g in grids]))
         groups = [G({nm: grids[m][ix[m]] for m, (nm, _) in enumerate(decl)}) for ix in combos]
         vals = [[grids[m][ix[m]].value for m in range(len(decl))] for ix in combos]
+        # groups with a member that was never stated (left at its default): they are groups like any other and take part
+        # in the product order with the default's value
+        extra = []
+        for ix in r.sample(combos, min(len(combos), 3)):
+            omit = r.randrange(len(decl))
+            try:
+                g_ = G({nm: grids[m][ix[m]] for m, (nm, _) in enumerate(decl) if m != omit})
+                extra.append((g_, [g_.groups[nm].value for nm, _ in decl]))
+            except Exception:  # noqa: BLE001
+                pass
+        for g_, v_ in extra:
+            for other, vo in list(zip(groups, vals)) + extra:
+                for a, va, b, vb in ((g_, v_, other, vo), (other, vo, g_, v_)):
+                    some_lt = any(x < y for x, y in zip(va, vb))
+                    some_gt = any(x > y for x, y in zip(va, vb))
+                    case = {"decl": [f"{n}:{k}" for n, k in decl], "a": str(a), "b": str(b), "unset": True}
+                    sw.note(["gpair-unset", case["decl"], case["a"], case["b"]], "group-pair-unset")
+                    try:
+                        sw.check((a < b) is (some_lt and not some_gt), "group < is not the strict product order", {**case, "clause": "product-lt"}, some_lt and not some_gt, a < b)
+                        sw.check((a > b) is (some_gt and not some_lt), "group > is not the strict product order", {**case, "clause": "product-gt"}, some_gt and not some_lt, a > b)
+                        sw.check((a == b) is (not some_lt and not some_gt), "group == is not member-wise equality", {**case, "clause": "product-eq"}, not some_lt and not some_gt, a == b)
+                    except Exception as e:  # noqa: BLE001
+                        sw.check(False, "comparing groups of one shape raised", {**case, "clause": "product-lt"}, None, f"{type(e).__name__}: {e}")
         dcase = {"decl": [f"{n}:{k}" for n, k in decl]}
         n = len(groups)
         lt, gt, eq = {}, {}, {}
